@@ -326,6 +326,13 @@ pub fn limit_pair(rng: &mut Rng, class: usize, around: f64) -> (f64, f64) {
                 (v, v)
             }
         },
+        // wrap-around range written with both limits in (pi, 2pi): only a short arc below `from` is forbidden, and
+        // the centre the library derives lies between 2pi and 3pi
+        9 => {
+            let from = rng.range(PI + 0.2, 2.0 * PI - 0.1);
+            let to = (from - rng.range(0.3, 2.5)).max(0.3);
+            (from, to)
+        }
         // arc of positive but tiny width (a few ulps .. a nanoradian), placed at the value or elsewhere
         8 => {
             let w = if rng.bool(0.3) { rng.int(1, 8) as f64 * f64::EPSILON * 4.0 } else { rng.logu(1e-15, 1e-9) };
